@@ -79,7 +79,7 @@ func checkC06(c *core.Ctx) {
 			ns = append(ns, n)
 		}
 	}
-	c.Stream("piece", c.N(800, 4000), func(i int, r *rand.Rand) {
+	c.Stream("piece", c.N(800, 8000), func(i int, r *rand.Rand) {
 		p := genTrackPiece(r, c.N(10, 30))
 		if !p.Effective(model.Flags{}).AllInRange() || !p.TotalBelow(960, 1<<28) {
 			c.Count("skipped", 1)
